@@ -31,3 +31,19 @@ package types
 //@   ensures result <==> (content(b.Header.SignData) == content(sig) || exists(i, 0, len(b.Confirms), b.Confirms[i] == sig))
 //@   invariant @loop 0: 0 <= $k && $k <= len(b.Confirms) && forall(i, 0, $k, b.Confirms[i] != sig)
 //@   nopanic
+
+// C06: who signed a transaction.  The signer list is recovered with secp256k1 from the signing hash (T5): uninterpreted.
+//@ func (Signer).GetSigners   pure trusted
+//@   opt heap-independent
+
+//@ func (AccountAccessor).GetSigners   pure trusted
+//@   opt reads=heap
+
+//@ func (Signers).ToSignerMap
+//@   props C06
+//@   ensures result != nil && fresh(result)
+//@   ensures forall(i, 0, len(signers), has(result, signers[i].Address))
+//@   ensures forallKeys(a, result, exists(i, 0, len(signers), signers[i].Address == a && result[a] == signers[i].Weight))
+//@   invariant @loop 0: 0 <= $k && $k <= len(signers) && m != nil && fresh(m) && unchanged(signers)
+//@   invariant @loop 0: forall(i, 0, $k, has(m, signers[i].Address))
+//@   invariant @loop 0: forallKeys(a, m, exists(i, 0, $k, signers[i].Address == a && m[a] == signers[i].Weight))
